@@ -206,7 +206,13 @@ class Run:
                 if nontrivial is None or nontrivial(c, io):
                     self.n_distinct_nontrivial += 1
             agree = io == mo
-            if mo == "unmodelled":
+            if not agree and " ## " in mo:
+                ip, mp = io.split(" ## "), mo.split(" ## ")
+                if len(ip) == len(mp) and any(m.endswith("unmodelled") for m in mp):
+                    # step-wise comparison; steps the model declines are skipped
+                    agree = all(a == m or m.endswith("unmodelled") for a, m in zip(ip, mp))
+                    self.coverage["unmodelled_skipped"] = self.coverage.get("unmodelled_skipped", 0) + sum(1 for m in mp if m.endswith("unmodelled"))
+            if mo == "unmodelled" or mo.endswith(" unmodelled"):
                 # negative exponent: Python goes through floating point, the model declines (DESIGN §3 L3)
                 self.coverage["unmodelled_skipped"] = self.coverage.get("unmodelled_skipped", 0) + 1
                 agree = True
